@@ -27,7 +27,7 @@ func (t *Tree) computeEdgeHashesRightRecur(cur, prev *Node, e *Edge) {
 		e.ntaxright = 0
 		e.hashcoderight = 0
 	}
-	if cur.Tip() {
+	if e != nil && cur.Tip() {
 		//tipIndex, _ := t.TipIndex(cur.Name())
 		e.hashcoderight = tax_hash(cur.Name())
 		e.ntaxright++
